@@ -32,6 +32,15 @@ const (
 	// power of two (bit length = round(log2)+1) and b | round(log2 q_i) the digits cover one bit less
 	// than the residues need; residues ≥ 2^(digits·b) lose their top bit in the key switch.
 	sigDigitCount = "C04/GadgetProduct/BaseTwoDecomposition-digit-count-uses-rounded-log2(q)/top-bit-of-residue-dropped"
+	// Conjugate-invariant ring of odd log2(N) with a 61-bit prime in Q, NTT-domain operands, key with a
+	// P: the key switch returns a uniformly random phase (standalone: LogN=5, one 61-bit Q, one P,
+	// ApplyEvaluationKey of Enc(0) decrypts to 60 bits; LogN 4/6, the standard ring, a 60-bit Q or
+	// NTTFlag=false are all fine). The NTT->NTT branch of Evaluator.ModDown (BasisExtender.ModDownQPtoQNTT)
+	// is the only difference to the passing non-NTT path; in that ring the lazy forward NTT returns values
+	// up to ≈7.6q (C01 known finding: above the documented 6q−2), which for q ≈ 2^61 leaves no headroom
+	// below 2^64. Root cause is in ring/ (C01/C19 territory); the consequence is a C04 violation on
+	// accepted parameters.
+	sigCIOddLogN61 = "C04/ModDown(NTT)/ConjugateInvariant-ring,odd-logN,61-bit-Q/wrong-result"
 )
 
 // digitsTooFew: BaseTwoDecompositionVectorSize allots ceil(round(log2 q_i)/b) digits of b bits to
@@ -50,8 +59,16 @@ func digitsTooFew(p rlwe.Parameters, kp keyParams, level int) bool {
 }
 
 // knownKS classifies the key-switch input classes with a known defect.
-func knownKS(p rlwe.Parameters, kp keyParams, level int) string {
+func knownKS(p rlwe.Parameters, kp keyParams, level int, isNTT bool) string {
+	ciOdd61 := false
+	if p.RingType() == ring.ConjugateInvariant && p.LogN()%2 == 1 && isNTT && kp.levelP >= 0 {
+		for _, q := range p.Q()[:level+1] {
+			ciOdd61 = ciOdd61 || bits.Len64(q) >= 61
+		}
+	}
 	switch {
+	case ciOdd61:
+		return sigCIOddLogN61
 	case kp.levelP == -1 && p.PCount() > 0:
 		return sigLevelPMinus1
 	case digitsTooFew(p, kp, level):
@@ -77,7 +94,7 @@ func ksScenario(rt ring.Type, logN int, ch rk.Chain, bound int) engine.Scenario 
 		isNTT := c.Choose(2, "IsNTT") == 0
 		inPlace := c.Bool("inPlace")
 		top := c.Bool("operand")
-		if knownKS(p, kp, level) != "" {
+		if knownKS(p, kp, level, isNTT) != "" {
 			c.Skip(skipKnown)
 			return
 		}
@@ -99,6 +116,8 @@ func knownScenario(rt ring.Type, logN int, ch rk.Chain, class string) engine.Sce
 		kp := keyParams{levelQ: p.MaxLevelQ(), levelP: -1}
 		top := false
 		switch class {
+		case sigCIOddLogN61:
+			kp.levelP = p.MaxLevelP() - c.ChooseFree(2, "LevelP")
 		case sigDigitCount:
 			kp.levelP, kp.base2, top = 0, []int{1, 2, 30}[c.ChooseFree(3, "base2")], true
 		case sigNoPNoBase2, sigLevelPMinus1:
@@ -106,7 +125,7 @@ func knownScenario(rt ring.Type, logN int, ch rk.Chain, class string) engine.Sce
 		}
 		level := kp.levelQ - c.ChooseFree(2, "ctLevel")
 		isNTT := c.ChooseFree(2, "IsNTT") == 0
-		k := knownKS(p, kp, level)
+		k := knownKS(p, kp, level, isNTT)
 		if k == "" {
 			k = "none(control)"
 		}
@@ -136,7 +155,7 @@ func runKS(c *engine.Chooser, name string, p rlwe.Parameters, op int, kp keyPara
 		c.Cover("ring", ringName(rt))
 		uni.Seed(c, name, cfg)
 
-		known := knownKS(p, kp, level)
+		known := knownKS(p, kp, level, isNTT)
 		sig := func(clause string) string {
 			if known != "" {
 				return known
@@ -301,7 +320,7 @@ func autoScenario(rt ring.Type, logN int, ch rk.Chain, bound int) engine.Scenari
 		isNTT := c.Choose(2, "IsNTT") == 0
 		inPlace := c.Bool("inPlace")
 		top := c.Bool("operand")
-		if knownKS(p, kp, level) != "" && !(galEl == 1 && autoOps[op] != "AutomorphismHoistedLazy+ModDown") {
+		if knownKS(p, kp, level, isNTT) != "" && !(galEl == 1 && autoOps[op] != "AutomorphismHoistedLazy+ModDown") {
 			c.Skip(skipKnown)
 			return
 		}
@@ -321,7 +340,7 @@ func runAuto(c *engine.Chooser, name string, p rlwe.Parameters, op int, galEl ui
 		c.Cover("inPlace", fmt.Sprint(inPlace))
 		c.Cover("ring", ringName(rt))
 		uni.Seed(c, name, cfg)
-		known := knownKS(p, kp, level)
+		known := knownKS(p, kp, level, isNTT)
 		if galEl == 1 && autoOps[op] != "AutomorphismHoistedLazy+ModDown" {
 			known = "" // identity: the key is not used
 		}
